@@ -51,14 +51,14 @@ def active (I : DA) (st : St) (p : Nat) : Bool :=
   decide ((matchesOf st.mu p).length < I.qp p) && decide (st.ptr p < (I.plist p).length)
 
 /-- one round: every proposer active at the start of the round proposes once, in index order -/
-def round (I : DA) (np : Nat) (st : St) : St :=
+def gsRound (I : DA) (np : Nat) (st : St) : St :=
   (List.range np).foldl (fun s p => if active I st p then step I s p else s) st
 
 /-- iterate rounds until nobody is active -/
 def gsLoop (I : DA) (np : Nat) : Nat → St → Option St
   | 0, _ => none
   | fuel + 1, st =>
-    if (List.range np).any (active I st) then gsLoop I np fuel (round I np st) else some st
+    if (List.range np).any (active I st) then gsLoop I np fuel (gsRound I np st) else some st
 
 
 def keyOf (row : List (Option Nat)) (j : Nat) : Nat := (row.getD j none).getD 0
